@@ -75,6 +75,33 @@ Theorem C13_interrupted_move_resumed : forall ps outrel fname fp s n,
 Proof. exact move_file_resumes_lemma. Qed.
 Print Assumptions C13_interrupted_move_resumed.
 
+(* a value with a trailing separator ("/R/ps/w/d/", what os.path.join(files,
+   "d/") gives) has the effect of the value without it on the file system, and
+   is rewritten to the same value unless both are left as they were (without
+   the repair the directory was moved, the link back failed and the recorded
+   value kept naming the old place) *)
+Theorem C13_trailing_separator_same_effect : forall ps outrel fname fp s,
+  fp <> [] -> clean_path fp ->
+  let v0 := JStr (render fp) in
+  let v1 := JStr (render fp ++ [c_slash]) in
+  snd (move_file ps outrel fname v1 s) = snd (move_file ps outrel fname v0 s) /\
+  (fst (move_file ps outrel fname v1 s) = fst (move_file ps outrel fname v0 s) \/
+   fst (move_file ps outrel fname v1 s) = v1 /\ fst (move_file ps outrel fname v0 s) = v0).
+Proof. exact move_file_trailing_slash_lemma. Qed.
+Print Assumptions C13_trailing_separator_same_effect.
+
+Example C13_trailing_separator_nonvacuous :
+  let ps := [bs "R"; bs "ps"] in
+  let fp := [bs "R"; bs "ps"; bs "w"; bs "d"] in
+  let s := init_st [(fp, NDir); (fp ++ [bs "inner.txt"], NFile (bs "content"))] in
+  fp <> [] /\ clean_path fp /\
+  fst (move_file ps [bs "outs"] (bs "d") (JStr (bs "/R/ps/w/d/")) s) = JStr (bs "/R/ps/outs/d") /\
+  lk (snd (move_file ps [bs "outs"] (bs "d") (JStr (bs "/R/ps/w/d/")) s))
+     [bs "R"; bs "ps"; bs "outs"; bs "d"; bs "inner.txt"] = Some (NFile (bs "content")) /\
+  lk (snd (move_file ps [bs "outs"] (bs "d") (JStr (bs "/R/ps/w/d/")) s)) fp
+     = Some (NLink (bs "../outs/d")).
+Proof. vm_compute. repeat split; try reflexivity; discriminate. Qed.
+
 (* the compiler's duplicate-name rejection (modelled by names_distinct, tied
    to syntax.ParseSourceBytes by the naming cases) makes the entries of one
    directory under outs/ pairwise different; typed-map keys stay different *)
